@@ -60,6 +60,18 @@ CHECKS = {
          'Tie: the model (list order included) equals the real output on a 3x42x3 placement catalogue under two layouts and on random trees to depth 7; '
          'an independent string-level oracle checks the property itself (selector set, rule order, declarations).'),
    note=BASE_NOTE + ' Open known finding C02-star-amp. Fragment boundaries (element after &-suffix, * in the middle) are syntax errors of the front end and are not generated.'),
+ 'C03': dict(category='proof',
+   technique='Lean 4: two-pass frame-stack model with lazy substitution, theorem model = lexical hoisted semantics under a decidable side condition; differential correspondence',
+   text=('Theorem C03: for every program (any depth, shadowing, chains, top-level redefinition, use before definition, uses in values and in '
+         'selector interpolations) satisfying the decidable side condition VarOK, the code-shaped model (pass G registering at grammar time and '
+         'resolving selectors, pass E re-registering top-level variables in order, frames pushed and popped per block, substitution until '
+         'no variable remains) equals the declarative semantics (nearest enclosing block that defines the name, else the last top-level '
+         'definition; values substituted recursively), for every fuel. C03_no_ref: nothing that survives a successful substitution is a '
+         'variable; C03_unknown: a reference without visible definition is an error; C03_local: a block leaves the caller\'s scope '
+         'unchanged; C03_innermost: innermost frame first. VarOK is the property\'s own side condition plus the exclusion of the open '
+         'finding C03-toplevel-redef, for which Props/C03.lean proves model != spec on the witness. Tie: model = real output on random '
+         'programs inside and outside VarOK (error name included), spec = model and an independent Python oracle on those inside.'),
+   note=BASE_NOTE + ' Uses of variables in media features and mixin arguments are exercised by C07 and C05; expressions inside values by C04.'),
 }
 NOT_APPLICABLE = {p: 'check under construction in this round (see DESIGN.md section 10 build order); not claimed yet' for p in
-  ['C01','C03','C05','C07','C10','C11','C12','C13','C14','C15','C16','C18','C19','C20']}
+  ['C01','C05','C07','C10','C11','C12','C13','C14','C15','C16','C18','C19','C20']}
